@@ -14,6 +14,7 @@ import (
 	"sort"
 	"strconv"
 	"strings"
+	"time"
 
 	"github.com/prometheus/client_golang/prometheus"
 	"github.com/prometheus/common/promslog"
@@ -339,7 +340,7 @@ func (c Config) Options() *tsdb.Options {
 	o.EnableHistogramSTEncoding = c.HistST
 	o.EnableFastStartup = c.FastStartup
 	o.HeadChunksWriteQueueSize = 0
-	o.BlockReloadInterval = 0
+	o.BlockReloadInterval = 24 * time.Hour // no background reloads: the harness owns every reload (0 is clamped to one second)
 	if c.XOR2 {
 		o.FloatChunkEncoding = chunkenc.EncXOR2
 	}
